@@ -73,6 +73,7 @@ type Case struct {
 	H        hgen.History `json:"h"`
 	Accepted FlushSpec    `json:"accepted"`
 	Batch    []int        `json:"batch,omitempty"`
+	Bulk     bool         `json:"bulk,omitempty"`
 }
 
 func setup() {
@@ -369,7 +370,16 @@ func drawCase(rt *rapid.T) Case {
 		c.Mode = "injected"
 	}
 	c.Cur = curs[rapid.IntRange(0, len(curs)-1).Draw(rt, "cur")]
-	pre := hgen.DrawHistory(rt, cfg)
+	var pre hgen.History
+	if rapid.IntRange(0, 11).Draw(rt, "bulk?") == 7 {
+		// a large RIB: dozens of next-hops and groups (often in one instance), 100+ referrers
+		bc := hgen.DefaultBulk()
+		bc.BuildOnly = true
+		pre = hgen.DrawBulk(rt, bc)
+		c.Bulk = true
+	} else {
+		pre = hgen.DrawHistory(rt, cfg)
+	}
 	c.H.FwdRefs = pre.FwdRefs
 	c.H.Steps = append(c.H.Steps, pre.Steps...)
 	var cur *gen.ID128
@@ -407,6 +417,9 @@ func drawCase(rt *rapid.T) Case {
 			m.BeliefApply(o.NI, o.Proto())
 		}
 		c.Batch = []int{rapid.IntRange(1, 6).Draw(rt, "batch")}
+		if c.Bulk {
+			c.Batch = []int{rapid.IntRange(16, 64).Draw(rt, "bigbatch")}
+		}
 	}
 	return c
 }
@@ -418,6 +431,9 @@ func TestCampaign(t *testing.T) {
 		rapid.Check(t, func(rt *rapid.T) {
 			c := drawCase(rt)
 			v := runCase(c)
+			if c.Bulk {
+				v.Class("bulk-rib")
+			}
 			col.Check(rt, ev.JSON(c), v)
 		})
 	})
